@@ -35,7 +35,7 @@ impl Tamper {
             Tamper::Signal(_, how) => format!("signal-{how}"),
             Tamper::Length(_, _, how) => format!("declared-length-{how}"),
             Tamper::ProofBit(_) => "proof-bit-flip".into(),
-            Tamper::Tree(k) => format!("tree-{}", ["other-leaf-set", "member-leaf-deleted", "leaf-appended", "reset"][*k as usize]),
+            Tamper::Tree(k) => format!("tree-{}", ["other-leaf-set", "member-leaf-deleted", "leaf-appended", "reset", "changed-and-changed-back"][*k as usize]),
             Tamper::Roots(_, how) => format!("root-set-{how}"),
         }
     }
@@ -142,6 +142,26 @@ fn tampers(r: &Req, msg: &[u8], thorough: bool) -> Vec<Tamper> {
     t.push(Tamper::Roots(vec![Some(1), Some(2), Some(0)], "own-root-last-of-three".into()));
     t.push(Tamper::Roots(vec![Some(0), Some(0)], "own-root-twice".into()));
     t.push(Tamper::Roots(vec![Some(1), Some(2), Some(3), Some(4), Some(5)], "five-foreign-roots".into()));
+    // root sets of many sizes, own root first / in the middle / last / absent
+    for n in [2usize, 3, 4, 5, 8, 9, 16, 17, 255, 256, 257] {
+        let foreign: Vec<Option<u64>> = (1..=n as u64).map(Some).collect();
+        t.push(Tamper::Roots(foreign.clone(), format!("{n}-foreign-roots")));
+        for (pos, name) in [(0usize, "first"), (n / 2, "middle"), (n - 1, "last")] {
+            let mut s = foreign.clone();
+            s[pos] = Some(0);
+            t.push(Tamper::Roots(s, format!("{n}-roots-own-{name}")));
+        }
+    }
+    // every byte of every public value: lowest bit flipped (the value may then exceed the field order: still not acceptable)
+    for k in 0..5usize {
+        for byte in 0..32usize {
+            let mut b = msg[128 + 32 * k..160 + 32 * k].to_vec();
+            b[byte] ^= 1;
+            t.push(Tamper::Value(k, from_le(&b), format!("byte-{byte}-bit-flipped")));
+        }
+    }
+    // the verifier's tree changes and changes back: the message is acceptable again
+    t.push(Tamper::Tree(4));
     t
 }
 
@@ -213,6 +233,35 @@ impl C02 {
             Tamper::Tree(k) => {
                 let rd = |b: Vec<u8>| Cursor::new(b);
                 let other = (r.index + 2) % (1 << 20);
+                if *k == 4 {
+                    // positive control: a fresh position beyond the leaf count is written and removed again
+                    let mut n = Cursor::new(Vec::<u8>::new());
+                    let _ = n;
+                    let far = ((r.index + 77) % (1 << 20)).max(r.index + 3).min((1 << 20) - 1);
+                    let far = if far == r.index || far == (r.index ^ 1) { (r.index + 5) % (1 << 20) } else { far };
+                    let was_default = { let mut b = Cursor::new(Vec::<u8>::new()); rln.get_leaf(far as usize, &mut b).is_ok() && b.get_ref().iter().all(|x| *x == 0) };
+                    if was_default && rln.set_leaf(far as usize, rd(codec::fr(&big(123)))).is_ok() {
+                        let input = build(&m, &signal, &declared);
+                        checks.push(("verify_rln_proof[tree changed]".into(), v_tree(rln, &input), false));
+                        let _ = rln.set_leaf(far as usize, rd(codec::fr(&big(0))));
+                        let mut nr = Cursor::new(Vec::<u8>::new());
+                        let _ = rln.get_root(&mut nr);
+                        if nr.into_inner() == own_root {
+                            checks.push(("verify_rln_proof[tree changed back]".into(), v_tree(rln, &input), true));
+                        }
+                    }
+                    let _ = setup_tree(rln, r);
+                    for (name, res, must) in checks.drain(..) {
+                        let kind = t.kind();
+                        if must && !res.accepted() {
+                            out.push(Discrepancy { key: format!("C02/{name}/{kind}/control-rejected"), case: case.clone(), detail: format!("{name} returned {} although every condition holds again", res.short()) });
+                        }
+                        if !must && res.accepted() {
+                            out.push(Discrepancy { key: format!("C02/{name}/{kind}/accepted"), case: case.clone(), detail: format!("{name} returned true although the verifier's tree has another root") });
+                        }
+                    }
+                    return out;
+                }
                 let res = match k {
                     0 => rln.set_leaf(other as usize, rd(codec::fr(&big(99)))),
                     1 => rln.delete_leaf(r.index as usize),
